@@ -249,6 +249,8 @@ type SchedSnap struct {
 	Todo    []int  `json:"todo"`
 	Entry   []int  `json:"entry"`
 	Running []int  `json:"running"`
+	NErr    []int  `json:"nerr"`  // stage goroutines parked before notifying "error"
+	NDone   []int  `json:"ndone"` // ... before notifying "done"
 }
 
 type JobSnap struct {
@@ -437,7 +439,7 @@ func (x *hist) snapshot() Snap {
 		if jh.Runner != nil {
 			js.Ctx = jh.Runner.CtxCanceled()
 		}
-		sc := &SchedSnap{Phase: "", Todo: []int{}, Entry: []int{}, Running: []int{}}
+		sc := &SchedSnap{Phase: "", Todo: []int{}, Entry: []int{}, Running: []int{}, NErr: []int{}, NDone: []int{}}
 		for _, p := range parked {
 			if p.Job != jh {
 				continue
@@ -453,6 +455,12 @@ func (x *hist) snapshot() Snap {
 				sc.Entry = append(sc.Entry, num(p.Stage))
 			case control.KRunBody:
 				sc.Running = append(sc.Running, num(p.Stage))
+			case control.KNotify:
+				if p.Err {
+					sc.NErr = append(sc.NErr, num(p.Stage))
+				} else {
+					sc.NDone = append(sc.NDone, num(p.Stage))
+				}
 			case control.KCancel:
 				js.Cancels++
 			}
@@ -467,6 +475,8 @@ func (x *hist) snapshot() Snap {
 				}
 				sort.Ints(sc.Todo)
 			}
+			sort.Ints(sc.NErr)
+			sort.Ints(sc.NDone)
 			sort.Ints(sc.Entry)
 			sort.Ints(sc.Running)
 			js.Sched = sc
@@ -602,7 +612,7 @@ type cand struct {
 }
 
 func (x *hist) weights() map[string]int {
-	w := map[string]int{"schedule": 10, "cancel": 3, "tick": 3, "fire": 6, "reload": 1, "iter": 8, "visit": 10, "runbegin": 8, "runend": 6,
+	w := map[string]int{"schedule": 10, "cancel": 3, "tick": 3, "fire": 6, "reload": 1, "iter": 8, "visit": 10, "runbegin": 8, "runend": 6, "notify": 7,
 		"deliver": 6, "return": 8, "badcancel": 1, "badschedule": 1, "save": 1, "shutdown": 0, "force": 0}
 	switch x.prof {
 	case "admit":
@@ -658,6 +668,8 @@ func (x *hist) candidates(drain bool) []cand {
 				ev.Code = 1 + x.rng.Intn(3)
 			}
 			cs = append(cs, cand{ev, w["runend"], p})
+		case control.KNotify:
+			cs = append(cs, cand{Ev{T: "notify", ID: id, N: num(p.Stage)}, w["notify"], p})
 		case control.KCancel:
 			cs = append(cs, cand{Ev{T: "deliver", ID: id}, w["deliver"], p})
 		case control.KReturn:
@@ -807,7 +819,7 @@ func (x *hist) apply(c cand) string {
 		jh := c.parked.Job
 		delete(jh.Todo, c.parked.Stage)
 		x.h.Release(c.parked, control.Outcome{})
-	case "runbegin", "deliver":
+	case "runbegin", "deliver", "notify":
 		x.h.Release(c.parked, control.Outcome{})
 	case "return":
 		x.alive[c.parked.Job.Idx] = false
@@ -987,7 +999,7 @@ func (x *hist) emit(ev Ev, res string) {
 // findCand maps a recorded event to an enabled candidate of the current state (nil: not enabled, the event is skipped)
 func (x *hist) findCand(ev Ev) *cand {
 	kinds := map[string]control.Kind{"iter": control.KTop, "visit": control.KVisit, "runbegin": control.KRunEntry, "runend": control.KRunBody,
-		"deliver": control.KCancel, "return": control.KReturn}
+		"deliver": control.KCancel, "return": control.KReturn, "notify": control.KNotify}
 	switch ev.T {
 	case "shutdown_return":
 		return nil // synthetic: emitted by the harness when Shutdown returns
@@ -1029,7 +1041,7 @@ func (x *hist) findCand(ev Ev) *cand {
 		if p.Kind != k || p.Job.Idx != ev.ID {
 			continue
 		}
-		if (k == control.KVisit || k == control.KRunEntry || k == control.KRunBody) && num(p.Stage) != ev.N {
+		if (k == control.KVisit || k == control.KRunEntry || k == control.KRunBody || k == control.KNotify) && num(p.Stage) != ev.N {
 			continue
 		}
 		if ev.T == "runend" && ev.O == "ctx" && (p.Job.Runner == nil || !p.Job.Runner.CtxCanceled()) {
@@ -1258,7 +1270,8 @@ func runHistory(out *os.File, hid int, seed uint64, prof string, maxSteps int, r
 	for _, pj := range pre {
 		x.pipesSeen[pj.Pipe] = true
 	}
-	hutil.JSONLine(out, map[string]interface{}{"kind": "begin", "hid": hid, "seed": seed, "profile": prof, "sets": sets, "pre": pre})
+	// snap0: what the API reports before the first event (the jobs restored from a preloaded store)
+	hutil.JSONLine(out, map[string]interface{}{"kind": "begin", "hid": hid, "seed": seed, "profile": prof, "sets": sets, "pre": pre, "snap0": x.snapshot()})
 	if rp != nil {
 		x.replay(rp.Events)
 	} else {
